@@ -145,6 +145,7 @@ def build_learner(l, fail=None):
     from coba.learners import RandomLearner, BanditEpsilonLearner, BanditUCBLearner, CorralLearner, FixedLearner
     k = l["kind"]
     if k == "stateful-mem": return comp.MemoryLearner(l["tag"], "ap", fail, uni=l.get("uni"))
+    if k == "stateful-rnginit": return comp.RngInitLearner(l["tag"], l["seed"], fail, uni=l.get("uni"))
     if k.startswith("stateful"): return comp.StatefulLearner(l["tag"], k.split("-")[1], fail, uni=l.get("uni"))
     if k == "random":  return RandomLearner()
     if k == "epsilon": return BanditEpsilonLearner(.2, seed=l["seed"])
